@@ -27,7 +27,8 @@ func NewSetupServerSession(username, pin string) (*SetupServerSession, error) {
 
 	if err == nil {
 		srp.SaltLength = 16
-		salt, v, err := srp.ComputeVerifier([]byte(pin))
+		var salt, v []byte
+		salt, v, err = srp.ComputeVerifier([]byte(pin))
 		if err == nil {
 			session := srp.NewServerSession([]byte(pairName), salt, v)
 			pairing := SetupServerSession{
